@@ -73,7 +73,7 @@ def late_cases(tier, rng):
         if tag in ('several-bindings-per-action', 'other-gamepad-held', 'modifier-order'):
             yield (c, tag)
 
-STAGES.append(dict(name='late', mode='app', coq='Check.C08w', cases=late_cases, nontrivial=lambda case, out: 'LMod' in out, shard=25,
+STAGES.append(dict(name='late', mode='app', coq='Check.C08w', profile=('Proofs.JudgeC08P', 'JudgeC08P.profile_C08b', 'C08_app_judgement_sound / C08_app_judgement_transfer (the stage is judged by Check.C08w)'), cases=late_cases, nontrivial=lambda case, out: 'LMod' in out, shard=25,
                    exhaustive={'thorough': False, 'quick': False},
                    rule='contexts inserted or rebuilt while some of their inputs are down: actions with 2-4 bindings of which some are held, a context tied to one gamepad while another gamepad holds the bound button, Ctrl+key with the key or the modifier down first; every binding whose own input has been up since creation must be driven in the frame its input goes down'))
 CLAUSES_LATE = {1: 'a binding was driven although its own input has been down in every frame since its instance was created', 2: 'an input went down (or was down) on a binding whose input had been up at least once since creation, and the binding was not driven in that frame: the input is not reflected in the frame it reaches Bevy',
